@@ -147,6 +147,11 @@ fn shapes_and_curves() {
 }
 
 fn main() {
+    // which configuration this binary was compiled for (checked by the driver against the requested one; not part of the comparison)
+    let cfg: Vec<&str> = [("std", cfg!(feature = "std")), ("libm", cfg!(feature = "libm")), ("vec8", cfg!(feature = "vec8")), ("vec16", cfg!(feature = "vec16")), ("vec32", cfg!(feature = "vec32")), ("vec64", cfg!(feature = "vec64")),
+        ("rgb", cfg!(feature = "rgb")), ("rgba", cfg!(feature = "rgba")), ("uv", cfg!(feature = "uv")), ("uvw", cfg!(feature = "uvw")), ("serde", cfg!(feature = "serde")), ("mint", cfg!(feature = "mint")),
+        ("bytemuck", cfg!(feature = "bytemuck")), ("az", cfg!(feature = "az")), ("image", cfg!(feature = "image")), ("repr_simd", cfg!(feature = "repr_simd"))].iter().filter(|x| x.1).map(|x| x.0).collect();
+    println!("compiled-for: {}", cfg.join(","));
     layout!(Vec2<f32>, Vec3<f32>, Vec4<f32>, Vec3<u8>, Vec4<f64>, Extent2<u16>, Extent3<u64>, Mat2<f32>, Mat3<f32>, Mat4<f64>, vek::mat::repr_c::row_major::Mat4<f32>, Quaternion<f32>, Transform<f32, f32, f32>, Rect<i32, u32>, Rect3<f32, f32>, Aabr<i8>, Aabb<f64>, Disk<f32, f32>, Sphere<f64, f64>, LineSegment2<f32>, LineSegment3<f64>, Ray<f32>, QuadraticBezier2<f32>, QuadraticBezier3<f32>, CubicBezier2<f64>, CubicBezier3<f32>, FrustumPlanes<f32>, vek::vec::repr_c::vec4::IntoIter<u8>, vek::vec::ShuffleMask4);
     vectors();
     matrices();
